@@ -50,13 +50,32 @@ pub fn run(out: &mut Out, seed: u64, tier: &str) {
         let (si, sj) = { let i = rng.below(m.n()); let mut j = rng.below(m.n()); if j == i { j = (i + 1) % m.n(); } (i, j) };
         let sdelta = { let hm: Vec<f64> = hints().magnitudes().into_iter().filter(|m| *m < 0.05).collect();
                        if !hm.is_empty() && s % 12 == 4 { hm[rng.below(hm.len())] * *rng.pick(&[0.4, 0.6, 2.0]) } else { *rng.pick(&[4e-9, 2e-9, 9e-9, 1e-10, 3e-8]) } };
-        let len = if straddle { 6 } else { 2 + rng.below(if tier == "thorough" { 11 } else { 7 }) };
+        // one sequence in six alternates set_coordinates / generate_connectivty between the molecule's geometry and the same geometry
+        // with two atoms of one element exchanged (two hydrogens on different carbons, the partners of an exchange reaction): bonds
+        // move while every atom keeps its number of neighbours
+        let like_pairs: Vec<(usize, usize)> = (0..m.n()).flat_map(|a| ((a + 1)..m.n()).map(move |b| (a, b))).filter(|(a, b)| m.zs[*a] == m.zs[*b]).collect();
+        let exchange = !straddle && s % 6 == 1 && !like_pairs.is_empty();
+        let (xa, xb) = if like_pairs.is_empty() { (0, 0) } else { like_pairs[rng.below(like_pairs.len())] };
+        let len = if exchange { 6 } else if straddle { 6 } else { 2 + rng.below(if tier == "thorough" { 11 } else { 7 }) };
         for k in 0..len {
-            let choice = if straddle { if k % 2 == 0 { 0 } else { 3 } } else if k == 0 { 0 } else { rng.below(10) };
+            let choice = if straddle || exchange { if k % 2 == 0 { 0 } else { 3 } } else if k == 0 { 0 } else { rng.below(10) };
             match choice {
                 0 | 1 | 2 => {
                     // a different coordinate set each time (so stale connectivity would show)
-                    let g = if straddle {
+                    let g = if exchange {
+                        let mut c = m.clone();
+                        if (k / 2) % 2 == 1 { c.xs.swap(xa, xb); }
+                        c
+                    } else if !straddle && k >= 2 && rng.chance(0.25) {
+                        // the geometry the molecule holds now with two atoms of one element exchanged: partners change, every atom keeps
+                        // its number of neighbours
+                        let cur: Vec<[f64; 3]> = w.molecule().coordinates.iter().map(|p| [p.x, p.y, p.z]).collect();
+                        let mut c = m.clone();
+                        if cur.len() == m.n() && cur.iter().all(|p| p.iter().all(|v| v.is_finite())) { c.xs = cur; }
+                        let pairs: Vec<(usize, usize)> = (0..m.n()).flat_map(|a| ((a + 1)..m.n()).map(move |b| (a, b))).filter(|(a, b)| m.zs[*a] == m.zs[*b]).collect();
+                        if !pairs.is_empty() { let (a, b) = pairs[rng.below(pairs.len())]; c.xs.swap(a, b); }
+                        c
+                    } else if straddle {
                         let mut c = m.clone();
                         let thr = 1.3 * (radius(m.zs[si]) + radius(m.zs[sj]));
                         let d = [m.xs[sj][0] - m.xs[si][0], m.xs[sj][1] - m.xs[si][1], m.xs[sj][2] - m.xs[si][2]];
@@ -68,7 +87,7 @@ pub fn run(out: &mut Out, seed: u64, tier: &str) {
                     } else if rng.chance(0.3) { let mut c = m.clone(); for p in c.xs.iter_mut() { for q in 0..3 { p[q] *= 3.0; } } c } else { distort(&m, rng.range(0.0, 0.4), &mut rng) };
                     let mut flat: Vec<f64> = g.xs.iter().flat_map(|p| p.to_vec()).collect();
                     // wrong lengths: one or two numbers short or long, a whole atom short or long, empty
-                    if !straddle && rng.chance(0.2) { match rng.below(7) { 0 => { flat.pop(); } 1 => { flat.pop(); flat.pop(); } 2 => { flat.push(1.0); } 3 => { flat.push(1.0); flat.push(-2.0); }
+                    if !straddle && !exchange && rng.chance(0.2) { match rng.below(7) { 0 => { flat.pop(); } 1 => { flat.pop(); flat.pop(); } 2 => { flat.push(1.0); } 3 => { flat.push(1.0); flat.push(-2.0); }
                                                               4 => { flat.extend([0.5, 0.5, 0.5]); } 5 => { flat.truncate(flat.len().saturating_sub(3)); } _ => { flat.clear(); } } }
                     ops.push(format!("C {}", hexs(&flat)));
                     let before = state(&w);
@@ -153,7 +172,12 @@ pub fn run(out: &mut Out, seed: u64, tier: &str) {
 
         // scripted vs file: same atoms and data through both doors
         let path = format!("/var/tmp/optrs-verif-scratch/c17-{}.xyz", std::process::id());
-        std::fs::write(&path, m.xyz_text()).unwrap();
+        // (the title is free text: now and then an atom-like one, a space-group symbol, a units remark)
+        let file_text = { let t = m.xyz_text(); let mut ls: Vec<String> = t.split('\n').map(|x| x.to_string()).collect();
+            if ls.len() > 1 { match s % 4 { 1 => ls[1] = (*rng.pick(&["P 2 2 2", "C 1 2 1", "I 4 2 2", "F 2 2 2", "O 0.0 0.0 0.0", "H 1 2 3 4", "N 1 1 1"])).to_string(),
+                                              2 => ls[1] = (*rng.pick(&crate::s_xyz::TITLES)).to_string(), _ => {} } }
+            ls.join("\n") };
+        std::fs::write(&path, file_text).unwrap();
         let file_mol = catch(|| Molecule::from_xyz_file(&path));
         let _ = std::fs::remove_file(&path);
         if let Some(fm) = file_mol {
